@@ -5,7 +5,8 @@ patch=$1; tier=$2; shift 2
 cd /verif
 if ! git -C /repo diff --quiet; then echo "repo dirty"; exit 2; fi
 git -C /repo apply "$patch" || { echo "patch does not apply"; exit 2; }
-trap 'git -C /repo checkout -- .' EXIT
+# undo the change and regenerate the facts from the clean tree (the generated files are rewritten by every check)
+trap 'git -C /repo checkout -- .; /verif/.work/bin/extract /repo /verif/lean/TunnelModel/Generated/Facts.lean /verif/lean/TunnelModel/Generated/Locks.lean' EXIT
 for p in "$@"; do
   out=$(./check "$p" --tier "$tier" 2>&1); rc=$?
   echo "== $p rc=$rc"
